@@ -28,7 +28,8 @@
                                              reports kind Storage; R*: answers of set/stop/close
      cset A RS RSTOP | cget A RS | cmeta A RS | cshape A RS      A: 1 = the settings/meta/shape argument is NULL
      cstart RS | cstop RS | ctrig RS | cframe RS RSTOP | cclose RC | cstate
-     sset A R | sget | smeta | sreserve | sstart R | sstop R | sappend ARG R (ARG 0: end<beg, 1: empty, 2: one frame)
+     sset A R | sget | smeta | sreserve | sstart R | sstop R | sappend ARG R (ARG 0: end<beg, 1: empty, 2: one frame;
+                                             3 / 4: one frame, of which the driver reports half / nothing consumed through *nbytes)
      sclose RSTOP RC | sstate
    Log entries:  open=<status>:-   open=0:#<serial>@<state>   describe#<serial>=<r>   close#<serial>=<r>
                  <call>#<serial>@<state>=<r>                                                                    */
@@ -62,6 +63,7 @@ static struct
     int has_driver, has_open, obj, kind_ok;
     long long open_status, describe_status, init_state, fnmask;
     long long rs, rstop, rclose;
+    int consume; /* what ms_append reports through *nbytes: 3 half of the packet, 4 nothing, otherwise everything */
     int opening_kind; /* 1 camera, 2 storage */
 } R;
 
@@ -116,7 +118,12 @@ static enum DeviceState ms_set(struct Storage* s, const struct StorageProperties
 static void ms_get(const struct Storage* s, struct StorageProperties* p) { STOLOG("get", 0); }
 static void ms_get_meta(const struct Storage* s, struct StoragePropertyMetadata* m) { STOLOG("get_meta", 0); }
 static enum DeviceState ms_start(struct Storage* s) { STOLOG("start", R.rs); return (enum DeviceState)R.rs; }
-static enum DeviceState ms_append(struct Storage* s, const struct VideoFrame* f, size_t* nbytes) { STOLOG("append", R.rs); return (enum DeviceState)R.rs; }
+static enum DeviceState ms_append(struct Storage* s, const struct VideoFrame* f, size_t* nbytes)
+{
+    STOLOG("append", R.rs);
+    if (R.consume == 3) *nbytes /= 2; else if (R.consume == 4) *nbytes = 0;
+    return (enum DeviceState)R.rs;
+}
 static enum DeviceState ms_stop(struct Storage* s) { STOLOG("stop", R.rstop); return (enum DeviceState)R.rstop; }
 static void ms_destroy(struct Storage* s) { STOLOG("destroy", 0); }
 static void ms_reserve(struct Storage* s, const struct ImageShape* shape) { STOLOG("reserve", 0); }
@@ -339,6 +346,7 @@ main(void)
             const struct VideoFrame* beg = (const struct VideoFrame*)(frames + 128);
             const struct VideoFrame* end = (const struct VideoFrame*)(frames + (a[0] == 0 ? 0 : a[0] == 1 ? 128 : 256));
             R.rs = a[1];
+            R.consume = (int)a[0];
             snprintf(res, sizeof res, "s=%d", (int)storage_append(g_sto, beg, end));
         } else if (!strcmp(op, "sclose") && n >= 3) {
             R.rstop = a[0]; R.rclose = a[1];
